@@ -220,6 +220,11 @@ func (f *Frame) call(c *ssa.CallCommon, pos token.Pos, v ssa.Value) []Val {
 		if fn.Parent() != nil && fn.Blocks != nil && f.depth < 4 && len(fn.FreeVars) == 0 {
 			return f.inlineCall(fn, args, nil)
 		}
+		// a small loop-free helper of the repository without a contract is executed in place (so that extracting a
+		// few lines into a helper does not change what can be proved about the caller)
+		if f.smallHelper(fn) {
+			return f.inlineCall(fn, args, nil)
+		}
 		vc.noteUncontracted(f.p.fullKey(fn))
 		f.havocAllExceptLocals()
 		return f.freshResults(c, fn.Name())
